@@ -23,7 +23,9 @@ NewG(p, n, sc, ec) == GObj(SortPairs(p), SortPairs(n), sc, ec, AscSeqOfSet(Group
 AsScores(g) == Obj(ScoresOf(g.pos), ScoresOf(g.neg), 0, 0, g.sc, g.ec)
 OfGroup(s, grp) == SelectSeq(s, LAMBDA x : x[2] = grp)
 GetItem(g, grp) == Obj(ScoresOf(OfGroup(g.pos, grp)), ScoresOf(OfGroup(g.neg, grp)), 0, 0, g.sc, g.ec)
-SwapG(g) == GObj(g.neg, g.pos, Flip(g.sc), Flip(g.ec), g.groups)
+(* as coded: swap() builds the mirrored object WITHOUT passing the group names on, so an explicitly   *)
+(* given list (its order, names without any sample) is replaced by the sorted names of the samples *)
+SwapG(g) == GObj(g.neg, g.pos, Flip(g.sc), Flip(g.ec), AscSeqOfSet(GroupsIn(g.pos) \cup GroupsIn(g.neg)))
 
 GroupCM(g, t2) == [i \in DOMAIN g.groups |-> CountCM(GetItem(g, g.groups[i]), t2)]
 SumCells(ms) == LET RECURSIVE S(_) S(t) == IF t = <<>> THEN <<0, 0, 0, 0>>
